@@ -72,3 +72,59 @@ Lemma key_new_instances :
   inst_key_no_checks_initialization_ReconnectData = inst_key_wrapper_ReconnectData /\
   inst_key_no_checks_initialization_SessionKey = inst_key_wrapper_SessionKey.
 Proof. repeat split. Qed.
+
+(* ---- fill_matrix_card_values and MatrixCard::new (src/matrix_card.rs), translated: one Uniform(0..=9)
+   sample per cell digit, in order, written over the whole buffer; rand's UniformInt<u8>::sample is the
+   modelled dependency (model/Random.v) ---- *)
+From Coq Require Import Lia.
+From WS Require Import lib.StepLoop proofs.steps.Matrix model.MatrixCard.
+
+Definition fill_body : (list N * tape) -> N -> option (list N * tape + (list N * tape)) :=
+  fun '(v_buf, v_tape) v_b__idx =>
+  match (let '(lo_, hi_) := (min_matrix_card_value, max_matrix_card_value) in uniform_sample (S (length v_tape)) lo_ (uniform_range lo_ hi_) (uniform_reject (uniform_range lo_ hi_)) v_tape) with None => None | Some (d1, v_tape) =>
+  if N.of_nat (length v_buf) <=? v_b__idx then None else
+  let v_buf := list_set v_buf (N.to_nat v_b__idx) d1 in
+  Some (inr (v_buf, v_tape)) end.
+
+Lemma list_set_app_d : forall (pre : list N) p post v, list_set (pre ++ p :: post) (length pre) v = pre ++ v :: post.
+Proof. induction pre as [|x r IH]; intros p post v; cbn [app length list_set]; [reflexivity|]. now rewrite IH. Qed.
+
+Lemma fill_loop_spec : forall post pre t,
+  for_loop fill_body (pre ++ post, t) (map N.of_nat (seq (length pre) (length post)))
+  = match fill_matrix_card_values (length post) t with
+    | Some (ds, t') => Some (inr (pre ++ ds, t')) | None => None end.
+Proof.
+  induction post as [|p post IH]; intros pre t.
+  - cbn [length seq map for_loop fill_matrix_card_values]. reflexivity.
+  - cbn [length seq map for_loop fill_matrix_card_values]. unfold fill_body at 1. cbv beta iota zeta.
+    destruct (uniform_sample _ _ _ _ t) as [[d t1]|]; [|reflexivity].
+    rewrite app_length. cbn [length].
+    destruct (N.leb_spec (N.of_nat (length pre + S (length post))) (N.of_nat (length pre))) as [H|_]; [lia|].
+    rewrite Nat2N.id, list_set_app_d.
+    change (pre ++ d :: post) with (pre ++ [d] ++ post). rewrite app_assoc.
+    replace (S (length pre)) with (length (pre ++ [d])) by (rewrite app_length; cbn [length]; lia).
+    rewrite IH. destruct (fill_matrix_card_values (length post) t1) as [[ds t2]|]; [|reflexivity].
+    rewrite <- app_assoc. reflexivity.
+Qed.
+
+Lemma fill_matrix_card_values_translated : forall buf t,
+  tr_matrix_fill_matrix_card_values buf t = fill_matrix_card_values (length buf) t.
+Proof.
+  intros buf t. unfold tr_matrix_fill_matrix_card_values.
+  match goal with |- context [for_loop ?f _ _] => change f with fill_body end.
+  assert (R : range_list 0 (N.of_nat (length buf)) = map N.of_nat (seq 0 (length buf))).
+  { unfold range_list. rewrite N.sub_0_r, Nat2N.id. apply map_ext. intro k. apply N.add_0_l. }
+  rewrite R. pose proof (fill_loop_spec buf [] t) as L. cbn [app length] in L. unfold tape in L |- *. rewrite L.
+  destruct (fill_matrix_card_values (length buf) t) as [[ds t']|]; reflexivity.
+Qed.
+
+Lemma matrix_card_new_translated : forall d h w t, d < 256 -> h < 256 -> w < 256 ->
+  tr_matrix_card_new d h w t
+  = match fill_matrix_card_values (N.to_nat (d * h * w)) t with
+    | Some (ds, t') => Some ((d, w, h, ds), t') | None => None end.
+Proof.
+  intros d h w t Hd Hh Hw. unfold tr_matrix_card_new.
+  rewrite proofs.steps.Matrix.matrix_get_matrix_card_size_translated by assumption.
+  rewrite fill_matrix_card_values_translated, repeat_length. unfold model.MatrixCard.get_matrix_card_size.
+  destruct (fill_matrix_card_values _ t) as [[ds t']|]; reflexivity.
+Qed.
